@@ -32,7 +32,7 @@ ANCHORS = [
 ]
 REQUIRED = ["runs_judged", "plug_events", "unplug_events", "regime:back-to-back-reuse", "regime:simultaneous-events",
             "regime:recompute-after-last-departure", "regime:one-period-session", "connectivity_runs", "second_runs_on_a_reused_queue", "regime:over-128-events-due-at-once", "sched:scripted",
-            "sched:uncontrolled", "sched:sorted", "snapshots_checked", "runs_where_a_waiting_ev_took_over_a_freed_space", "simulators_built_on_an_empty_queue_filled_afterwards", "runs_with_all_events_beyond_period_100000"]
+            "sched:uncontrolled", "sched:sorted", "snapshots_checked", "runs_where_a_waiting_ev_took_over_a_freed_space", "simulators_built_on_an_empty_queue_filled_afterwards", "runs_with_all_events_beyond_period_100000", "runs_with_user_defined_arrival_events", "runs_where_the_scheduler_adds_the_next_arrival_from_inside_the_run"]
 BUDGET_S = {"quick": 240, "thorough": 3000}
 TRACE_RE = re.compile(r"^U*P*S?AX$")
 
@@ -81,6 +81,13 @@ def _corpus():
                 "constraints": [], "tol": None}
         cases_.append({"desc": {"period": 1, "network": net2, "sessions": sess, "recompute": [off + 1], "scheduler": dict(full, t0=off, mr=None, full_len=6), "np_seed": 1},
                        "corpus": True, "far": True})
+    # reentrancy: a line of cars for one space; only the first arrival is queued, the scheduler announces the next arrival through the
+    # public EventQueue.add_event at the moment the space frees up (the queue is otherwise empty then)
+    for n_ in (3, 6):
+        sess = [{"id": f"l{k}", "station": "s0", "arrival": 3 * k, "departure": 3 * k + 2, "requested": 1e5, "est_dep": 3 * k + 2, "battery": big}
+                for k in range(n_)]
+        cases_.append({"desc": {"period": 5, "network": net1, "sessions": sess, "recompute": [], "scheduler": dict(full, mr=None, full_len=4),
+                                "np_seed": 1, "hold_back": [f"l{k}" for k in range(1, n_)]}, "corpus": True, "reentrant": True})
     return cases_
 
 
@@ -99,6 +106,8 @@ def cases(seed, tier):
             d = gen.scenario(rng, sched="uncontrolled", noise_p=0.2)
         else:
             d = gen.scenario(rng, sched="sorted", kinds=("EVSE", "FR"), noise_p=0.2, constraint_free_p=0.15)
+        if rng.random() < 0.06:
+            d["arrival_event"] = "user"
         out.append({"desc": d, "reuse_queue": rng.random() < 0.12, "late_fill": rng.random() < 0.1})
     # networks that assign spaces at run time (contrib StochasticNetwork): sessions name no space of their own, more cars than
     # spaces, so late arrivals wait and take over a freed space (their station changes after their plug-in event)
@@ -128,6 +137,31 @@ def run_case(case, obs):
             obs.ev("runs_where_a_waiting_ev_took_over_a_freed_space")
         _judge(case, obs, d, sim, evs, probe)
         return
+    if case.get("reentrant"):
+        from acnportal.acnsim.events import PluginEvent
+        from vlib import build as _b
+        sch_ = _b.build_scheduler(d)
+        box_ = {}
+
+        def announce(self_, t, active):
+            sim_ = box_["sim"]
+            for e_ in box_["evs"]:
+                if e_.session_id in d["hold_back"] and e_.arrival == t + 1 and e_.session_id not in box_.setdefault("done", set()):
+                    box_["done"].add(e_.session_id)
+                    sim_.event_queue.add_event(PluginEvent(e_.arrival, e_))
+
+        sch_.hook = announce
+        sim, evs = _b.build_sim(d, scheduler=sch_)
+        box_["sim"], box_["evs"] = sim, evs
+        from vlib.monitors import SimProbe
+        probe = SimProbe(sim)
+        probe.step_limit = simrun.last_event_ts(d) + 4
+        probe.attach()
+        probe.run()
+        probe.detach()
+        obs.ev("runs_where_the_scheduler_adds_the_next_arrival_from_inside_the_run")
+        _judge(case, obs, d, sim, evs, probe)
+        return
     sim, evs, probe = simrun.run_traced(d, late_fill=bool(case.get("late_fill")), snapshots=not case.get("far"))
     if case.get("far"):
         obs.ev("runs_with_all_events_beyond_period_100000")
@@ -145,6 +179,8 @@ def run_case(case, obs):
 
 def _judge(case, obs, d, sim, evs, probe):
     obs.ev("runs_judged")
+    if d.get("arrival_event") == "user":
+        obs.ev("runs_with_user_defined_arrival_events")
     obs.ev("sched:" + d["scheduler"]["kind"])
     model = simrun.occupant_model(d)
     sess = {s["id"]: s for s in d["sessions"]}
@@ -185,7 +221,7 @@ def _judge(case, obs, d, sim, evs, probe):
         obs.violate("unknown_session_event", f"plug/unplug for unknown sessions {sorted(map(str, extra))}", **wit)
     # --- event history: non-decreasing time, within a period U < P < R; complete
     from acnportal.acnsim.events import UnplugEvent, PluginEvent, RecomputeEvent
-    rank = lambda e: 0 if isinstance(e, UnplugEvent) else 1 if isinstance(e, PluginEvent) else 2 if isinstance(e, RecomputeEvent) else 3
+    rank = lambda e: {"Unplug": 0, "Plugin": 1, "Recompute": 2}.get(getattr(e, "event_type", None), 3)  # by documented type tag (user event classes too)
     hist = [(e.timestamp, rank(e)) for e in sim.event_history]
     if hist != sorted(hist):
         obs.violate("event_history_order", f"event_history (timestamp, class rank) = {hist}", **wit)
